@@ -52,6 +52,14 @@ SInit == CASE Skel = 0 -> BInit
            [] Skel = 2 -> pre = <<[k |-> "lam"], [k |-> "type"], [k |-> "lam"], [k |-> "type"]>> /\ pending = <<2>> /\ size = 4
            \* (g : int -> int) => _
            [] Skel = 3 -> pre = <<[k |-> "lam"], [k |-> "pi"], [k |-> "int"], [k |-> "int"]>> /\ pending = <<1>> /\ size = 4
+\* the SAME pair unified twice: the second call reads the holes the first one solved -- at their shifts, below the binders and
+\* local definitions between a hole's home and its occurrence -- and has to confirm the first; against a host whose subterm was
+\* replaced by a ground constant it has to fail unless that constant is what the solution is
+Again(t) == UNION { UNION { { [kind |-> "again", a |-> Replace(t, s.pos, Hole(1, sh)), b |-> t, a2 |-> Replace(t, s.pos, Hole(1, sh)), b2 |-> t] }
+                            \cup { [kind |-> "again-mismatch", a |-> Replace(t, s.pos, Hole(1, sh)), b |-> t, a2 |-> Replace(t, s.pos, Hole(1, sh)), b2 |-> Replace(t, s.pos, k)] : k \in {TInt, TType} \ {s.sub} }
+                            : sh \in 0..s.d }
+                    : s \in { x \in Subterms(t, <<>>, 0) : x.pos # <<>> } }
+Emit3 == (Done /\ size >= 2 /\ ~HasHole(T) /\ WellTyped(T)) => \A p \in Again(T) : PrintT(<<"PAIR", ToJson(p)>>)
 Reducts(t) == { P("reduct", t, StepN(t, k)) : k \in 0..3 }
 Pairs(t) == SingleOK(t) \cup Double(t) \cup Cross(t) \cup Occurs(t) \cup Nested(t) \cup Cycle2(t) \cup Mismatch(t) \cup Unrelated(t) \cup Reducts(t)
 Emit2 == (Done /\ size >= 2 /\ ~HasHole(T) /\ WellTyped(T)) => \A p \in TwoStep(T) : PrintT(<<"PAIR", ToJson(p)>>)
